@@ -47,6 +47,12 @@ class C07(Prop):
               [("preflibtools.instances.convert", "order_to_pwg")]
 
     def generate(self, rng, n, deep=False):
+        if deep or self.tier == "thorough":
+            # scale: ballots with more than a thousand indifference classes
+            m = 1100
+            alts = list(range(1, m + 1))
+            yield {"kind": "deep", "type": "soc", "alts": alts,
+                   "profile": [[[[a] for a in alts], 2], [[[a] for a in reversed(alts)], 1]]}
         for i in range(n):
             r = rng.random()
             c = gen.ordinal_case(rng, m=rng.randint(2, 7 if deep else 6), n=rng.randint(1, 6))
@@ -106,6 +112,26 @@ class C07(Prop):
             self.count("grow")
             return {"stages": stages}
         inst = gen.inst_of(case)
+        if case["kind"] == "deep":
+            # 1 > 2 > ... > m twice and m > ... > 1 once: the full tables are not shipped to the model (m^2 entries);
+            # every function must return, and sampled entries are compared with the closed form
+            from preflibtools.properties import pairwisecomparisons as PC
+            from preflibtools.instances.convert import order_to_pwg
+            self.count("deep")
+            m = len(case["alts"])
+            out = {}
+            pw = call(PC.pairwise_scores, inst, limit=120)
+            cp = call(PC.copeland_scores, inst, limit=120)
+            out["calls"] = {"pairwise_scores": pw[0] if pw[0] == "ok" else pw, "copeland_scores": cp[0] if cp[0] == "ok" else cp}
+            for name, f in (("has_condorcet", PC.has_condorcet), ("borda_scores", PC.borda_scores), ("order_to_pwg", order_to_pwg)):
+                r = call(f, inst, limit=120)
+                out["calls"][name] = r[0] if r[0] == "ok" and name != "has_condorcet" else r
+            pairs = [(1, 2), (2, 1), (1, m), (m, 1), (m // 2, m // 2 + 1), (m - 1, m), (7, 1000)]
+            if pw[0] == "ok":
+                out["pw"] = [[a, b, int(pw[1][a][b])] for a, b in pairs]
+            if cp[0] == "ok":
+                out["cp"] = [[a, b, int(cp[1][a][b])] for a, b in pairs]
+            return out
         self.count("type:" + case["type"])
         return self._query(inst, case)
 
@@ -137,11 +163,15 @@ class C07(Prop):
             return "unparsable"
 
     def requests(self, case, obs):
+        if case["kind"] == "deep":
+            return []
         if case["kind"] == "grow":
             return [dict(gen.model_inst(st["snap"]), op="voting.tables") for st in obs["stages"]]
         return [dict(gen.model_inst(case), op="voting.tables")]
 
     def nontrivial_key(self, case, obs):
+        if case["kind"] == "deep":
+            return "deep"
         if case["kind"] == "grow":
             return repr(case)
         if len(case["profile"]) < 2 and case["type"] in ("soc", "soi"):
@@ -149,6 +179,27 @@ class C07(Prop):
         return repr((case["alts"], case["profile"]))
 
     def judge(self, case, obs, replies):
+        if case["kind"] == "deep":
+            out = []
+            for name, r in obs["calls"].items():
+                if name == "has_condorcet":
+                    if r != ("ok", True):
+                        out.append(Problem("violation", case, f"has_condorcet on a profile of {len(case['alts'])} alternatives "
+                                           f"whose first alternative wins every contest 2:1: {r}", "deep/has_condorcet"))
+                elif r != "ok":
+                    out.append(Problem("violation", case, f"{name} fails on ballots with {len(case['alts'])} indifference "
+                                       f"classes: {r}", "deep/" + name))
+            for a, b, v in obs.get("pw", []):
+                if v != (2 if a < b else 1):
+                    out.append(Problem("violation", case, f"pairwise_scores[{a}][{b}] = {v}, {2 if a < b else 1} voters rank "
+                                       f"{a} above {b}", "deep/pairwise"))
+                    break
+            for a, b, v in obs.get("cp", []):
+                if v != (1 if a < b else -1):
+                    out.append(Problem("violation", case, f"copeland_scores[{a}][{b}] = {v}, the net margin is "
+                                       f"{1 if a < b else -1}", "deep/copeland"))
+                    break
+            return out
         if case["kind"] == "grow":
             out = []
             for k, (st, rep) in enumerate(zip(obs["stages"], replies)):
@@ -202,6 +253,8 @@ class C07(Prop):
         return out
 
     def shrink_candidates(self, case):
+        if case["kind"] == "deep":
+            return
         if case["kind"] == "grow":
             for key in ("first", "more"):
                 for i in range(len(case[key])):
